@@ -25,6 +25,7 @@ KGarbLay == {"garb", "cmt", "cpp"}
 KInc == {"inc"}
 KSent == {"sent"}
 KStruct == {"del", "ins", "ren", "par"}
+KRenCmt == {"ren", "cmt", "cpp"}
 KStructCmt == {"del", "ins", "ren", "par", "cmt", "cpp"}
 DirCls == {6, 7}
 KSentCmt == {"sent", "cmt"}
